@@ -1618,6 +1618,7 @@ func ruleC16SkipPrefix(c *Ctx) {
 	}
 	// a comparison between an element of field.Index and an element of the skip path
 	found := false
+	nLen := 0
 	for _, fi := range c.familyInstrs(m.fn) {
 		i := fi.I
 		// a whole-slice comparison of (a prefix of) field.Index with the skip path
@@ -1666,6 +1667,51 @@ func ruleC16SkipPrefix(c *Ctx) {
 		}
 		if (isIdxElem(bo.X) && isOther(bo.Y)) || (isIdxElem(bo.Y) && isOther(bo.X)) {
 			found = true
+			// the comparison is made for every field at least as deep as the embedded one: the length relation that
+			// holds where the elements are compared is len(field.Index) >= len(path), nothing narrower
+			lenOfIndex := func(v ssa.Value) (direct, any bool) {
+				for _, x := range backSlice(v, 8) {
+					if call, ok := x.(*ssa.Call); ok && core.CalleeKey(&call.Call) == "builtin.len" && c.mentionsNamedField(upValue(call.Call.Args[0], fi.Path), "Index", 4) {
+						any = true
+						direct = x == v
+					}
+				}
+				return
+			}
+			lenOfOther := func(v ssa.Value) (direct, any bool) {
+				for _, x := range backSlice(v, 8) {
+					if call, ok := x.(*ssa.Call); ok && core.CalleeKey(&call.Call) == "builtin.len" && !c.mentionsNamedField(upValue(call.Call.Args[0], fi.Path), "Index", 4) {
+						if sl, isSlice := call.Call.Args[0].Type().Underlying().(*types.Slice); isSlice && isIntType(sl.Elem()) {
+							any = true
+							direct = x == v
+						}
+					}
+				}
+				return
+			}
+			for _, g := range famGuards(fi) {
+				lb, ok := g.Cond.(*ssa.BinOp)
+				if !ok {
+					continue
+				}
+				op := lb.Op
+				dA, aA := lenOfIndex(lb.X)
+				dB, aB := lenOfOther(lb.Y)
+				if !(aA && aB) {
+					dA, aA = lenOfIndex(lb.Y)
+					dB, aB = lenOfOther(lb.X)
+					if !(aA && aB) {
+						continue
+					}
+					op = map[token.Token]token.Token{token.LSS: token.GTR, token.GTR: token.LSS, token.LEQ: token.GEQ, token.GEQ: token.LEQ, token.EQL: token.EQL, token.NEQ: token.NEQ}[op]
+				}
+				if !g.Pol {
+					op = map[token.Token]token.Token{token.LSS: token.GEQ, token.GTR: token.LEQ, token.LEQ: token.GTR, token.GEQ: token.LSS, token.EQL: token.NEQ, token.NEQ: token.EQL}[op]
+				}
+				nLen++
+				c.R.Check(op == token.GEQ && dA && dB, rule, fmt.Sprintf("promoted-fields-of-override:every-depth#%d", nLen), c.pos(lb), "a field is tested against the embedded field's path whenever its own path is at least as long",
+					fmt.Sprintf("the element-wise comparison with the embedded field's index path is made only when the lengths satisfy `len(field.Index) %s ...` (with arithmetic: %v): fields promoted from a struct embedded deeper inside the hidden one have a longer path, are not recognised, and become properties of the outer object", op, !(dA && dB)))
+			}
 		}
 	}
 	c.R.Check(found, rule, "promoted-fields-of-override:index-prefix", c.P.Pos(m.fn.Pos()), "promoted fields of an overridden embedded struct are recognised by comparing their index path with the embedded field's, element by element", "the promoted fields of an overridden embedded struct are no longer recognised by an element-wise comparison of index paths (e.g. only by depth): fields promoted from a second, ordinary embedded struct would be dropped")
